@@ -354,10 +354,71 @@ fn check(ctx: &Ctx, c: &Case) -> PResult {
     Ok(())
 }
 
+/// Version binding in builds of the crate WITHOUT `legacy-proving` (this
+/// harness links it WITH the feature, because it needs V2 proofs): the
+/// alloc-only build and the default-feature build each prove under V3 and
+/// verify under V1/V2/V3, on the compiled verifier and on one rebuilt from
+/// bytes. A V3 proof is accepted under V3 only; legacy proving is refused (and
+/// if it is not, the legacy proof is bound to its own version).
+pub fn sweeps(ctx: &Ctx) {
+    for (dir, bin, what) in [
+        ("harness-nostd", "nostd-digest", "alloc-only build without legacy-proving"),
+        ("harness-nolegacy", "nolegacy-digest", "default-feature build without legacy-proving"),
+    ] {
+        let path = std::path::Path::new(crate::runner::verif_root()).join(dir).join("target/fast").join(bin);
+        if !path.exists() {
+            ctx.infra_problem(format!("{} is missing (run ./setup.sh)", path.display()));
+            return;
+        }
+        let out = std::process::Command::new(&path).arg("versions").env("VERIF_SEED", ctx.seed.to_string()).output();
+        let Ok(o) = out else {
+            ctx.infra_problem(format!("{} could not be run", path.display()));
+            return;
+        };
+        if !o.status.success() {
+            let f = Fail::new("version-probe-crashed", format!("{what}: the version probe exited with {:?}: {}", o.status.code(), String::from_utf8_lossy(&o.stderr).chars().take(300).collect::<String>()));
+            ctx.violation("binding", &f, json!({"build": what}));
+            return;
+        }
+        let text = String::from_utf8_lossy(&o.stdout).to_string();
+        let mut seen = 0;
+        for line in text.lines() {
+            let mut it = line.split_whitespace();
+            let (Some(key), Some(val)) = (it.next(), it.next()) else { continue };
+            let parts: Vec<&str> = key.split('.').collect();
+            ctx.add_evals(1);
+            if parts.get(1) == Some(&"error") {
+                let f = Fail::new("version-probe-error", format!("{what}: {line}"));
+                ctx.violation("binding", &f, json!({"build": what, "line": line}));
+                return;
+            }
+            // <size>.<X>proof[.frombytes].<V>  accept|reject
+            if let Some(pv) = parts.get(1).and_then(|p| p.strip_suffix("proof")) {
+                let vv = parts.last().copied().unwrap_or("");
+                let expect = pv.eq_ignore_ascii_case(vv);
+                seen += 1;
+                ctx.label(&format!("{what}: {} proof under {vv}: {val}", pv.to_uppercase()));
+                if (val == "accept") != expect {
+                    let f = Fail::new(
+                        if val == "accept" { "accepted-under-other-version" } else { "expected-accept-rejected" },
+                        format!("{what}: a {} proof presented under {vv} was {val}ed ({line})", pv.to_uppercase()),
+                    );
+                    ctx.violation("binding", &f, json!({"build": what, "line": line}));
+                    return;
+                }
+            }
+        }
+        if seen < 12 {
+            ctx.infra_problem(format!("{what}: version probe printed only {seen} verdicts"));
+            return;
+        }
+    }
+}
+
 pub fn props() -> Vec<(Box<dyn PropDyn>, u32, u32)> {
     vec![(Box::new(Prop::new("binding", case_strategy, check).shrink(80)), 200, 4000)]
 }
 
 pub fn describe(ctx: &Ctx) {
-    ctx.rule("for an honest (circuit, proof, public inputs): public-input mutations {+1, negate, replace, zero, value of another position, swap, rotate, reverse, truncate by 1..3, extend by 1..3 zeros/values}; near-miss circuits compiled under the same label {one selector value, one wire, one public-input row added / removed / moved, one constraint more, one component fewer}; labels with one bit flipped / one byte longer / shorter / empty; every ordered (proof version, verifier version) pair with V1 proofs produced by the reference prover. Oracle: verify returns Err (InconsistentPublicInputsLen for length changes) and never panics; accept exactly on the matching version; reference verifier agrees. Statement-equivalent mutants (identical key and identical non-zero public-input map) are excluded by construction and counted. non-trivial = mutated statement differs from the honest one; distinct by hash of the offered triple");
+    ctx.rule("for an honest (circuit, proof, public inputs): public-input mutations {+1, negate, replace, zero, value of another position, swap, rotate, reverse, truncate by 1..3, extend by 1..3 zeros/values}; near-miss circuits compiled under the same label {one selector value, one wire, one public-input row added / removed / moved, one constraint more, one component fewer}; labels with one bit flipped / one byte longer / shorter / empty; every ordered (proof version, verifier version) pair with V1 proofs produced by the reference prover. Oracle: verify returns Err (InconsistentPublicInputsLen for length changes) and never panics; accept exactly on the matching version; reference verifier agrees. Version pairs are additionally probed in two builds of the crate WITHOUT the legacy-proving feature (alloc-only and default features; the harness itself links the feature for V2 proofs). Statement-equivalent mutants (identical key and identical non-zero public-input map) are excluded by construction and counted. non-trivial = mutated statement differs from the honest one; distinct by hash of the offered triple");
 }
